@@ -10,7 +10,7 @@ def openMachine (args : List String) (hin hout : IO.FS.Stream) : Option (IO Bool
   | "socbus" :: rest => (parseSoc rest).map fun c => serve (numBus c.n c.m (SocBus.machine c)) hin hout
   | "socglue" :: rest =>
     match parseGlue rest with
-    | some (.built c) => some (serve (numBus c.soc.n c.soc.m (SocRBus.machine c)) hin hout)
+    | some (.built c) => some (serve (numBus c.soc.n c.soc.m (SocABus.machine c)) hin hout)
     | _ => none
   | _ => none
 
